@@ -566,6 +566,13 @@ func (lw *loopWorld) exec(f []string) {
 		lw.ev("call poll d=%d", lw.depth)
 		n, err := lw.ioc.PollOne()
 		lw.ev("ret n=%d err=%s", n, errClass(err))
+	case "idlepoll":
+		// a PollOne at a point where the script's author knows nothing can be ready (no peer action, no timer armed, no handler
+		// posted since a state in which every wait had been satisfied): it must report a timeout, not success
+		fmt.Fprintf(lw.w, "? idle\n")
+		lw.ev("call poll d=%d", lw.depth)
+		n, err := lw.ioc.PollOne()
+		lw.ev("ret n=%d err=%s", n, errClass(err))
 	case "pollfor":
 		lw.ev("call poll d=%d", lw.depth)
 		err := lw.ioc.RunOneFor(time.Duration(atoi(f[1])) * loopTick)
@@ -1551,6 +1558,13 @@ func loopEnum(args []string, w *bufio.Writer) {
 	// a descriptor that keeps message boundaries behind the file type (FIFO in packet mode): every read completes at once and
 	// short (one packet) while more is queued
 	for _, n := range []int{34, 40, 70} {
+		// ReadAll over packets: every call needs several system calls and still completes inside the call — each completion counts
+		// towards the dispatch limit like any other
+		// (a packet-mode pipe holds 256 packets here; every chain below finds all its packets queued)
+		if n <= 40 {
+			emit("obj 1 fifo", "peer 1 packetmode", strings.Repeat("peer 1 write 4\n", 2*n+12), fmt.Sprintf("readall 1 8 op=11 chain=%d", n+5), "pending", "poll", "poll", "pending")
+			emit("obj 1 fifo", "peer 1 packetmode", strings.Repeat("peer 1 write 2\n", 3*n+12), fmt.Sprintf("readall 1 6 op=11 chain=%d", n+3), "pending", "poll", "poll", "pending")
+		}
 		emit("obj 1 fifo", "peer 1 packetmode", strings.Repeat("peer 1 write 4\n", n), fmt.Sprintf("read 1 16 op=11 chain=%d", n+5), "pending", "poll", "poll", "pending")
 		emit("obj 1 fifo", "obj 2 tcp", "peer 1 packetmode", strings.Repeat("peer 1 write 3\n", n), "peer 2 write 200", fmt.Sprintf("read 1 8 op=11 chain=%d then=read_2_4_op=77", n-2),
 			"pending", "poll", "poll", "pending")
@@ -1620,6 +1634,17 @@ func loopEnum(args []string, w *bufio.Writer) {
 	emit("obj 1 tcp", "read 1 8 op=11", "writeall 1 200000 op=12", "pending", "peer 1 write 8", "poll", "pending", "peer 1 drain", "poll", "peer 1 drain", "poll", "pending")
 	emit("obj 1 tcp", "writeall 1 200000 op=12", "read 1 8 op=11", "pending", "peer 1 write 8", "poll", "pending", "peer 1 drain", "poll", "peer 1 drain", "poll", "pending")
 	emit("obj 1 tcp", "readall 1 8 op=11", "writeall 1 200000 op=12", "peer 1 write 4", "poll", "pending", "peer 1 write 4", "poll", "pending", "peer 1 drain", "poll", "peer 1 drain", "poll", "pending")
+	// ... the write completes (or is cancelled) first and the read stays in flight with a silent peer: the loop has nothing to
+	// report any more (the write interest is gone from the kernel too), so PollOne times out instead of succeeding for nothing
+	for _, kind := range []string{"tcp"} {
+		emit("obj 1 "+kind, "read 1 8 op=11", "writeall 1 200000 op=12", "pending", "peer 1 drain", "poll", "peer 1 drain", "poll", "peer 1 drain", "poll", "peer 1 drain", "poll",
+			"pending", "idlepoll", "idlepoll", "pending", "peer 1 write 8", "poll", "pending", "idlepoll")
+		emit("obj 1 "+kind, "writeall 1 200000 op=12", "read 1 8 op=11", "pending", "peer 1 drain", "poll", "peer 1 drain", "poll", "peer 1 drain", "poll", "peer 1 drain", "poll",
+			"pending", "idlepoll", "idlepoll", "pending")
+		emit("obj 1 "+kind, "read 1 8 op=11", "setdisp 32", "write 1 5 op=12", "setdisp 0", "pending", "poll", "pending", "idlepoll", "idlepoll", "peer 1 write 8", "poll", "idlepoll", "pending")
+	}
+	emit("obj 1 tcp", "writeall 1 200000 op=12", "setdisp 32", "read 1 8 op=11", "setdisp 0", "pending", "peer 1 write 8", "poll", "pending", "idlepoll", "peer 1 drain", "poll", "peer 1 drain", "poll",
+		"peer 1 drain", "poll", "peer 1 drain", "poll", "pending", "idlepoll")
 	emit("obj 1 packet", "recvfrom 1 16 op=11", "close 1", "pending", "poll", "pending")
 	emit("obj 1 listener", "accept 1 op=11", "close 1", "pending", "poll", "pending")
 	// 5. two completions harvested by the same epoll_wait: the handler that runs first closes / cancels the other
@@ -1693,14 +1718,36 @@ func loopEnum(args []string, w *bufio.Writer) {
 	// (one epoll event), the read callback — dispatched first — cancels or closes the object
 	for _, kind := range []string{"tcp", "adapter"} {
 		for _, act := range []string{"close", "cancel"} {
-			emit("obj 1 "+kind, "prog 13 "+act+" 1", "setdisp 32", "write 1 8 op=11", "setdisp 0", "read 1 4 op=13", "peer 1 write 4", "poll", "pending", "poll", "pending")
-			emit("obj 1 "+kind, "prog 13 "+act+" 1", "read 1 4 op=13", "setdisp 32", "write 1 8 op=11", "setdisp 0", "peer 1 write 4", "poll", "pending", "poll", "pending")
-			emit("obj 1 "+kind, "prog 11 "+act+" 1", "setdisp 32", "write 1 8 op=11", "setdisp 0", "read 1 4 op=13", "peer 1 write 4", "poll", "pending", "poll", "pending")
+			// (the peer then looks at what it received: nothing of a write that was reported cancelled before it had sent anything)
+			emit("obj 1 "+kind, "prog 13 "+act+" 1", "setdisp 32", "write 1 8 op=11", "setdisp 0", "read 1 4 op=13", "peer 1 write 4", "poll", "pending", "poll", "peer 1 drain", "pending")
+			emit("obj 1 "+kind, "prog 13 "+act+" 1", "read 1 4 op=13", "setdisp 32", "write 1 8 op=11", "setdisp 0", "peer 1 write 4", "poll", "pending", "poll", "peer 1 drain", "pending")
+			emit("obj 1 "+kind, "prog 11 "+act+" 1", "setdisp 32", "write 1 8 op=11", "setdisp 0", "read 1 4 op=13", "peer 1 write 4", "poll", "pending", "poll", "peer 1 drain", "pending")
 		}
 		// a ReadAll that has made progress and is parked again, then a write starts on the same object before the rest arrives
 		emit("obj 1 "+kind, "readall 1 8 op=11", "peer 1 write 3", "poll", "pending", "write 1 5 op=12", "poll", "peer 1 write 5", "poll", "peer 1 drain", "pending")
 		emit("obj 1 "+kind, "readall 1 8 op=11", "peer 1 write 3", "poll", "setdisp 32", "write 1 5 op=12", "setdisp 0", "peer 1 write 5", "poll", "poll", "peer 1 drain", "pending")
 	}
+	// 5b+. ... the read callback — dispatched first — starts the next read, which finds nothing and waits in the poller again, while the
+	// write of the same event is still to be dispatched: the renewed read interest survives the write's dispatch (and the other way
+	// round: the write callback starts the next write, at the dispatch limit so that it waits, before the read is dispatched)
+	for _, kind := range []string{"tcp", "adapter"} {
+		emit("obj 1 "+kind, "prog 13 read 1 4 op=+", "setdisp 32", "write 1 8 op=11", "setdisp 0", "read 1 4 op=13", "peer 1 write 4", "poll", "pending",
+			"peer 1 write 4", "poll", "pending", "idlepoll")
+		emit("obj 1 "+kind, "prog 13 read 1 4 op=+", "read 1 4 op=13", "setdisp 32", "write 1 8 op=11", "setdisp 0", "peer 1 write 4", "poll", "pending",
+			"peer 1 write 4", "poll", "pending", "peer 1 write 4", "poll", "pending")
+		emit("obj 1 "+kind, "prog 13 readall 1 8 op=+", "setdisp 32", "write 1 8 op=11", "setdisp 0", "read 1 4 op=13", "peer 1 write 7", "poll", "pending",
+			"peer 1 write 5", "poll", "pending")
+		// Cancel with both directions in flight; the cancellation callback of the read starts the next read (of the write: the next
+		// write, parked at the limit): the operation started there belongs to the time after the Cancel and completes
+		emit("obj 1 "+kind, "prog 11 read 1 8 op=+", "read 1 8 op=11", "setdisp 32", "write 1 5 op=12", "setdisp 0", "pending", "cancel 1", "pending",
+			"peer 1 write 8", "poll", "pending", "peer 1 drain")
+		emit("obj 1 "+kind, "prog 12 read 1 8 op=+", "read 1 8 op=11", "setdisp 32", "write 1 5 op=12", "setdisp 0", "pending", "cancel 1", "pending",
+			"peer 1 write 8", "poll", "pending", "peer 1 drain")
+		emit("obj 1 "+kind, "prog 11 setdisp 32 ; write 1 5 op=+ ; setdisp 0", "read 1 8 op=11", "setdisp 32", "write 1 5 op=12", "setdisp 0", "pending", "cancel 1", "pending",
+			"poll", "pending", "peer 1 drain")
+	}
+	emit("obj 1 tcp", "prog 11 read 1 8 op=+", "read 1 8 op=11", "writeall 1 200000 op=12", "pending", "cancel 1", "pending", "peer 1 write 8", "poll", "pending", "peer 1 drain")
+	emit("obj 1 adapter", "wdeadline 1 20", "prog 11 read 1 8 op=+", "read 1 8 op=11", "writeall 1 400000 op=12", "pending", "cancel 1", "pending", "peer 1 write 8", "poll", "pending", "peer 1 drain")
 	// 5b''. a read started at the dispatch limit on a connection whose previous ReadAll had been parked with progress: it starts from
 	// nothing (its own buffer, offset 0)
 	for _, kind := range []string{"tcp", "adapter", "fifo"} {
